@@ -168,7 +168,9 @@ fn cardano_discriminant_lost(c: &[Cmplx]) -> bool {
     let dis = 18.0 * a * b * cc * d - 4.0 * b * b2 * d + b2 * c2 - 4.0 * a * c2 * cc - 27.0 * a2 * d2;
     let d0 = b2 - 3.0 * a * cc;
     let d1 = 2.0 * b2 * b - 9.0 * a * b * cc + 27.0 * a2 * d;
-    let _ = (d0, d1);
+    // d0 = d1 = 0 exactly: the formula takes its coincident-root branch -b / (3a) and never looks at the discriminant, so nothing
+    // is lost there (a wrong value on such an input is not in the known class: seeded change S10-C10 hid behind it)
+    if d0 == 0.0 && d1 == 0.0 { return false; }
     // the five terms of the discriminant cancel: its computed value has NO correct digit when it is below the rounding
     // uncertainty of the sum, about eps * sum |terms|
     let terms = [18.0 * a * b * cc * d, -4.0 * b * b2 * d, b2 * c2, -4.0 * a * c2 * cc, -27.0 * a2 * d2];
@@ -277,6 +279,12 @@ pub fn gen(rng: &mut Rng, tier: Tier, out: &mut Vec<String>) {
             let r0 = rng.range(-3, 3) as f64; let m = 2 + rng.below(deg - 1);
             let mut rs: Vec<Cmplx> = vec![Cmplx::new(r0, 0.0); m.min(deg)]; while rs.len() < deg { let l = rs.len(); rs.push(Cmplx::new(r0 + 1.0 + l as f64, 0.0)); }
             emit(out, "f", "multiple", refine, &from_roots(&rs, Cmplx::new(1.0, 0.0)), &[]);
+            // the same with a leading coefficient other than 1 (dyadic: the coefficients stay exact). Seeded change S10-C10 (`-b / 3. * a`
+            // for the coincident root of a cubic) is invisible with a = +-1
+            let lead = [2.0f64, -3.0, 0.5, 4.0, -0.25][(deg + r0.abs() as usize) % 5];
+            emit(out, "f", "multiple", refine, &from_roots(&rs, Cmplx::new(lead, 0.0)), &[]);
+            let all: Vec<Cmplx> = vec![Cmplx::new(r0, 0.0); deg];
+            emit(out, "f", "multiple", refine, &from_roots(&all, Cmplx::new(lead, 0.0)), &[]);
         }
     } } }
     // monomials a*x^n (all roots zero), pure powers x^n - c
